@@ -1,7 +1,7 @@
 """Helpers shared by the program shaped checks."""
 from hypothesis import strategies as st
 
-from ..lang import gen, model, printer
+from ..lang import gen, model, printer, values
 from ..runner import Outcome
 
 
@@ -16,6 +16,8 @@ def run_model(prog, lines=None, files=None, step_limit=200000):
         return None, "unsupported:" + str(e)[:40]
     except RecursionError:
         return None, "model-recursion"
+    except values.NanKey:
+        return None, "unsupported:nan-map-key"
 
 
 def layout_ints():
